@@ -246,6 +246,11 @@ func (s *Search) scan(b *ssa.BasicBlock, from int, passMode bool) (ssa.Instructi
 					}
 				}
 			}
+			// a deferred function certainly runs at this RunDefers only if its defer
+			// statement was executed on every path leading here
+			if rd, isRD := in.(*ssa.RunDefers); isRD && !deferDominates(g, rd) {
+				continue
+			}
 			if !s.passable(g) {
 				return nil, true
 			}
@@ -351,13 +356,23 @@ func CallPred(f func(c *ssa.CallCommon) bool) Pred {
 			return f(x.Common())
 		case *ssa.RunDefers:
 			for _, d := range Defers(in.Parent()) {
-				if f(d.Common()) {
+				if f(d.Common()) && Dominates(d, in) {
 					return true
 				}
 			}
 		}
 		return false
 	}
+}
+
+// deferDominates: some defer statement of g in rd's function dominates rd.
+func deferDominates(g *ssa.Function, rd *ssa.RunDefers) bool {
+	for _, d := range Defers(rd.Parent()) {
+		if StaticCallee(d.Common()) == g && Dominates(d, rd) {
+			return true
+		}
+	}
+	return false
 }
 
 // Defers lists the defer instructions of fn.
